@@ -12,6 +12,7 @@ import (
 	"github.com/blevesearch/bleve/v2/util"
 	bolt "go.etcd.io/bbolt"
 
+	"verif/mc"
 	"verif/sched/vrt"
 )
 
@@ -77,7 +78,7 @@ func (im *Image) Referenced() map[string]bool {
 	if !ok {
 		return rv
 	}
-	tmp, _ := os.MkdirTemp("/dev/shm", "verif-ref")
+	tmp, _ := os.MkdirTemp(mc.ShmBase(), "verif-ref")
 	defer os.RemoveAll(tmp)
 	os.WriteFile(tmp+"/root.bolt", b, 0o600)
 	db, err := bolt.Open(tmp+"/root.bolt", 0o600, &bolt.Options{ReadOnly: true})
